@@ -8,6 +8,7 @@ import (
 	"path/filepath"
 	"runtime"
 	"sort"
+	"strconv"
 	"strings"
 	"sync"
 	"time"
@@ -441,7 +442,7 @@ func c19ConcurrentWriter(run *vf.Run, dir string) {
 	index := filepath.Join(dir, "index.log")
 	store := filepath.Join(dir, "store")
 	_ = os.MkdirAll(store, 0o755)
-	text := fmt.Sprintf("SecRuleEngine On\nSecAuditEngine On\nSecAuditLogParts ABHZ\nSecAuditLogType Concurrent\nSecAuditLogFormat json\nSecAuditLog %s\nSecAuditLogStorageDir %s\nSecAction \"id:1,phase:1,pass,log,auditlog,msg:'m'\"\n", index, store)
+	text := fmt.Sprintf("SecRuleEngine On\nSecAuditEngine On\nSecAuditLogParts ABFHZ\nSecAuditLogType Concurrent\nSecAuditLogFormat json\nSecAuditLog %s\nSecAuditLogStorageDir %s\nSecAction \"id:1,phase:1,pass,log,auditlog,msg:'m'\"\n", index, store)
 	w, err := coraza.NewWAF(coraza.NewWAFConfig().WithDirectives(text))
 	if err != nil {
 		run.Inconclusive("concurrent audit writer configuration rejected: %v", err)
@@ -454,11 +455,11 @@ func c19ConcurrentWriter(run *vf.Run, dir string) {
 			defer wg.Done()
 			for n := 0; n < N; n++ {
 				tx := w.NewTransactionWithID(fmt.Sprintf("ctx-%d-%d", g, n))
-				tx.ProcessConnection("10.0.0.1", 1000+g, "10.0.0.2", 80)
+				tx.ProcessConnection(fmt.Sprintf("10.%d.%d.%d", g, n/250, n%250+1), 1000+g, "10.0.0.2", 80)
 				tx.ProcessURI(fmt.Sprintf("/u-%d-%d", g, n), "GET", "HTTP/1.1")
 				tx.ProcessRequestHeaders()
 				_, _ = tx.ProcessRequestBody()
-				tx.ProcessResponseHeaders(200, "HTTP/1.1")
+				tx.ProcessResponseHeaders(200+(g*N+n)%100, "HTTP/1.1")
 				tx.ProcessLogging()
 				_ = tx.Close()
 			}
@@ -475,20 +476,23 @@ func c19ConcurrentWriter(run *vf.Run, dir string) {
 	seen := map[string]int{}
 	mixed, filesBad := 0, 0
 	firstMixed := ""
-	lastURI := ""
-	for _, l := range lines {
-		if strings.HasPrefix(strings.TrimSpace(l), "\"GET /u-") {
-			lastURI = strings.TrimPrefix(strings.Fields(strings.TrimSpace(l))[1], "/u-")
-			continue
-		}
-		if strings.HasPrefix(l, "ctx-") {
-			fs := strings.Fields(l)
+	// an entry is four consecutive lines: addresses + time, request line, status, "<id> - <file>";
+	// all four must belong to one transaction (client address, URI and id all carry g-n)
+	for i := 0; i < len(lines); {
+		if !strings.HasPrefix(lines[i], "ctx-") && i+3 < len(lines) && strings.HasPrefix(lines[i+3], "ctx-") &&
+			!strings.HasPrefix(lines[i+1], "ctx-") && !strings.HasPrefix(lines[i+2], "ctx-") {
+			fs := strings.Fields(lines[i+3])
 			id := strings.TrimPrefix(fs[0], "ctx-")
+			var g, n int
+			_, _ = fmt.Sscanf(id, "%d-%d", &g, &n)
+			ok := strings.HasPrefix(lines[i], fmt.Sprintf("10.%d.%d.%d ", g, n/250, n%250+1)) &&
+				strings.HasPrefix(strings.TrimSpace(lines[i+1]), fmt.Sprintf("\"GET /u-%s ", id)) &&
+				strings.TrimSpace(lines[i+2]) == strconv.Itoa(200+(g*N+n)%100)
 			seen[fs[0]]++
-			if id != lastURI {
+			if !ok {
 				mixed++
 				if firstMixed == "" {
-					firstMixed = fmt.Sprintf("the entry closed by %q follows the request line of /u-%s", l, lastURI)
+					firstMixed = fmt.Sprintf("%q / %q / %q / %q", lines[i], lines[i+1], lines[i+2], lines[i+3])
 				}
 			}
 			if len(fs) >= 3 {
@@ -497,8 +501,18 @@ func c19ConcurrentWriter(run *vf.Run, dir string) {
 					filesBad++
 				}
 			}
-			lastURI = ""
+			i += 4
+			continue
 		}
+		// not the start of a well-formed entry
+		if strings.HasPrefix(lines[i], "ctx-") {
+			seen[strings.Fields(lines[i])[0]]++
+		}
+		mixed++
+		if firstMixed == "" {
+			firstMixed = fmt.Sprintf("line %d %q does not start an entry of four lines", i+1, lines[i])
+		}
+		i++
 	}
 	missing := 0
 	for g := 0; g < G; g++ {
